@@ -78,6 +78,12 @@ def pyIntOfDigits (s : Str) : Option Nat :=
   if s.length > Gen.intMaxStrDigits then none
   else some (digitsVal (s.map fun c => (decimalVal? c).getD 0))
 
+/-- Python frames available to the two recursive functions (`_derive_mol_from_symbols`,
+    `_fragment_to_selfies`) before `RecursionError`; the exact threshold depends on the caller's
+    stack depth (DESIGN §3), so the harness never compares inputs whose nesting depth is within a
+    factor 2 of it. -/
+def recursionBudget : Nat := Gen.recursionLimit - 40
+
 def memStr (s : Str) (l : List Str) : Bool := l.contains s
 
 end SV
